@@ -342,6 +342,9 @@ class Ctx:
 
 
 # ------------------------------------------------------------------------------------------------
+RETRY_LEFT = [4]   # long retries left in the current contract case (reset by contract.run_case)
+
+
 def discharge(ob, timeout_ms=10000):
     """decide one obligation with z3; fills status/backend/model"""
     if ob.status is not None:
@@ -399,8 +402,10 @@ def discharge(ob, timeout_ms=10000):
                 r = z3.unsat
                 ob.note = (ob.note + " " if ob.note else "") + "[proved from the linear hypotheses only]"
             ob.time_s = time.time() - t0
-    if r == z3.unknown and "timeout" in (s.reason_unknown() or "") + "timeout":
+    if r == z3.unknown and RETRY_LEFT[0] > 0:
         # a busy machine must not flip a verdict: one more attempt with a much larger budget and another seed
+        # (at most a few per contract case, so that a broken tree does not cost minutes per obligation)
+        RETRY_LEFT[0] -= 1
         s4 = z3.Solver()
         s4.set("timeout", int(timeout_ms) * int(os.environ.get("VF_RETRY_FACTOR", "6")))
         s4.set("random_seed", 7)
